@@ -405,6 +405,8 @@ package syncer
 //@   set ended = ite(recvok && !recv.Done && recv.Err == nil, ended, 1) after recv rdbPipe
 //@   set ctxDone = 1 after recv ctx.Done()
 //@   ensures no_silent_stop: result == nil ==> ended == 1
+//@   assert at call Store: a_snapshot_is_complete_only_at_the_size_the_source_announced: nsize > 0 ==> readBytes.v == nsize
+//@   replay syncer_zeroCrcEarlyEnd
 //@   loop 1:
 //@     invariant progress: ended == 0
 
